@@ -748,18 +748,23 @@ def r5_reconnect(program, rep):
             edges = [st_ for st_ in subterms(item)
                      if st_[0] == "cmp" and st_[1] == "Eq" and
                      NEW in (st_[2], st_[3])]
-            if not edges and view is T:
+            if not edges:
                 # the list of matching edges filled by a loop instead of a
-                # comprehension: the same filter, read off the loop
-                for st_ in subterms(item):
+                # comprehension: the same filter, read off the loop (in the
+                # nested helper's own terms when the removal lives there)
+                own = T if view is T else view.t
+                raw = own.term(c.args[0], own.cfg.node_containing(c))
+                for st_ in subterms(raw):
                     if st_[0] != "new":
                         continue
-                    built_ = T.filtered(st_)
+                    built_ = own.filtered(st_)
                     for it__, el__, conds__ in (built_ or []):
-                        edges += [c__ for c__, p__ in conds__
-                                  if p__ and c__[0] == "cmp" and
-                                  c__[1] == "Eq" and
-                                  NEW in (c__[2], c__[3])]
+                        for c__, p__ in conds__:
+                            if view is not T:
+                                c__ = view._x(c__)
+                            if p__ and c__[0] == "cmp" and c__[1] == "Eq" \
+                                    and NEW in (c__[2], c__[3]):
+                                edges.append(c__)
             okd = bool(edges)
     rep.check(okd, "C03-R5", inst, "a node of the orphan that the detour "
               "passes through is first detached from its previous parent, "
